@@ -41,7 +41,7 @@ CLAIMED = {
             "into another and into the own container, update, add_bundle(document), unified, flattened, JSON/XML reload) x every follow-up mutation (attribute "
             "on each record, new record, add_namespace incl. clashing, set_default_namespace, bundle(), the same "
             "inside each bundle) x side mutated (thorough: x a second mutation on the other side); the untouched "
-            "side's ordered strict content and namespace observation must not change, and it must resolve names given as strings exactly as its twin (same history and derivation, no mutation) does.", TECH, NOTE),
+            "side's ordered strict content and namespace observation must not change, and it must resolve names given as strings exactly as its twin (same history and derivation, no mutation) does; mutations include names given as strings under the pre-bound prefixes (xsi, xsd); every history of <= 2 letters x derivation x side x string-name mutation is also run as a pristine case - in a freshly forked process in which only that history, that one derivation (built lazily) and that mutation have run, so per-process state of the library cannot have been touched before.", TECH, NOTE),
     "C04": ("For every state of the document alphabet to depth 3 (thorough 4) and every single-record shape, "
             "the family of all one-step content-preserving variants (rotations, reversal, prefix renaming, record "
             "duplication, rebuild, JSON/XML reload) and content-changing edits (identifier, kind, attribute value / "
@@ -95,7 +95,7 @@ CLAIMED = {
             "accept the text and the parsed structure (clusters, element nodes per unified record and cluster, generic "
             "nodes, relation paths, n-ary legs, annotation tables, HTML-like label skeletons and texts) must equal the "
             "expectation.", TECH + "; Graphviz as independent DOT reader", NOTE + "; Graphviz 2.43 is trusted as DOT and HTML-like label parser"),
-    "C16": ("Full product of 14 documents (non-ASCII identifiers and values, bundles, 20 kB string, dense non-ASCII, Unicode line separators; inside the C01/C02/"
+    "C16": ("Full product of 15 documents (non-ASCII identifiers and values, bundles, 20 kB string, dense non-ASCII, Unicode line separators, text that Unicode normalisation would change: decomposed accents next to composed twins, compatibility characters; inside the C01/C02/"
             "C07 spaces) x 4 formats + 3 writer-option variants x 8 destinations (returned str, StringIO, GB18030 text file, tempfile text and binary wrappers, codecs writer, binary stream, path with non-ASCII and %XX in its name, paths whose names are near the 255-byte limit in multi-byte and in ASCII characters, relative path from two working directories) compared "
             "pairwise (bytes = UTF-8 of the text; XML by canonical form), then x 9 sources (content str/bytes, text/"
             "binary stream seekable and non-seekable, GB18030 text file, tempfile text wrapper, path) x up to 4 readers (deserialize, prov.read with format in "
